@@ -126,6 +126,8 @@ Start(e) ==
           <<e.a \notin ids, "C03", "duplicate-iteration-id">>,
           <<e.a >= 1, "C03", "id-not-positive">>,
           <<Cfg.maxiter = 0 \/ (e.a <= Cfg.maxiter /\ Cardinality(ids) + 1 <= Cfg.maxiter), "C03", "more-invocations-than-max-iterations">>,
+          \* the same fact as C05 states it: triggering stops AT the max-iterations limit
+          <<Cfg.maxiter = 0 \/ (e.a <= Cfg.maxiter /\ Cardinality(ids) + 1 <= Cfg.maxiter), "C05", "iteration-requested-beyond-the-max-iterations-limit">>,
           <<Cfg.mode = "file" \/ Cfg.light \/ Cardinality(liveH) < Cfg.conc, "C04", "more-than-concurrency-in-flight">>,
           <<Cfg.light \/ e.b \notin liveH, "C04", "handle-shared-by-concurrent-iterations">>,
           <<e.d = 0, "C07", "iteration-started-in-failed-state">>,
@@ -148,7 +150,8 @@ IdRange(e) ==
     /\ why' = why \cup Fails(<<
           <<setupSeen = 1, "C06", "iteration-without-successful-setup">>,
           <<e.a = lmax + 1 /\ e.b >= e.a, "C03", "iteration-ids-not-unique-and-gapless">>,
-          <<Cfg.maxiter = 0 \/ e.b <= Cfg.maxiter, "C03", "more-invocations-than-max-iterations">> >>)
+          <<Cfg.maxiter = 0 \/ e.b <= Cfg.maxiter, "C03", "more-invocations-than-max-iterations">>,
+          <<Cfg.maxiter = 0 \/ e.b <= Cfg.maxiter, "C05", "iteration-requested-beyond-the-max-iterations-limit">> >>)
     /\ lmax' = IF e.b > lmax THEN e.b ELSE lmax
     /\ Unch(<<skipped, setupSeen, ids, liveIds, liveH, endedIds, cleaned, succT, failT, sumTicks, lateSum, dropSum, stopSeen, limitSeen,
               evals, firstEvalT, pendingV, progS, progF, cancelT, timeoutSeen, retSeen, ret, mS, mF, mD, mSetup, mSetupRes,
